@@ -7,6 +7,8 @@ import (
 	"net/http"
 	"net/http/httptest"
 	"net/url"
+	"os"
+	"path/filepath"
 	"regexp"
 	"sort"
 	"strings"
@@ -218,6 +220,226 @@ func TestSSOSystem(t *testing.T) {
 	}
 	host := func(s *ssoSP) string { return strings.TrimPrefix(strings.TrimPrefix(s.root, "https://"), "http://") }
 
+	// exec performs one transition of the model on the real servers: st is the browser / network / store state
+	// (updated in place), idp the IdP server over st's store
+	exec := func(st *ssoState, idp *samlidp.Server, ed *ssoEdge, fk string) (key_, real, clause string, fatal bool) {
+		rid := ""
+		if ed.Act.N == "Deliver" {
+			rid = fmt.Sprintf("%s,fresh=%v>", ed.Act.R.id(), ed.Act.R.Fresh)
+		}
+		key_ = fmt.Sprintf("SSO:%s:%s%s%s:from=%s", ed.Act.N, ed.Act.S, rid, ed.Act.To, hashKey(fk))
+		real = "?"
+		switch ed.Act.N {
+		case "Register":
+			w := doHTTP(idp, httpReq{Method: "PUT", URL: idpSrvRoot + "/services/" + ed.Act.S, Body: string(sps[ed.Act.S].mdXML)})
+			real = fmt.Sprint(w.Code)
+			if w.Code != 204 {
+				clause = "the SP's own published metadata is not sufficient registration for the IdP (PUT /services answered " + real + ")"
+			}
+		case "Unregister":
+			w := doHTTP(idp, httpReq{Method: "DELETE", URL: idpSrvRoot + "/services/" + ed.Act.S})
+			real = fmt.Sprint(w.Code)
+		case "IdPLogin":
+			w := doHTTP(idp, httpReq{Method: "POST", URL: idpSrvRoot + "/login", Body: "user=alice&password=pw-alice", CType: "application/x-www-form-urlencoded"})
+			for _, c := range w.Result().Cookies() {
+				if c.Name == "session" {
+					st.idpCk = "session=" + c.Value
+					real = "session"
+				}
+			}
+		case "IdPLogout":
+			id := strings.TrimPrefix(st.idpCk, "session=")
+			w := doHTTP(idp, httpReq{Method: "DELETE", URL: idpSrvRoot + "/sessions/" + url.PathEscape(id)})
+			real = fmt.Sprint(w.Code) // the browser keeps the cookie: the server must have forgotten the session
+		case "TickShort":
+			st.offset += 6 * time.Minute
+			real = "none"
+		case "TickLong":
+			st.offset += 61 * time.Minute
+			real = "none"
+		case "Visit":
+			s := sps[ed.Act.S]
+			w := serveOn(s.protected, "GET", host(s), "/app/"+strings.ToLower(s.name)+"?x=1", nil, []*http.Cookie{st.sessCk[s.name]})
+			real = fmt.Sprint(w.Code)
+			if w.Code == 200 && strings.Contains(w.Body.String(), "hello alice") {
+				real = "page"
+			}
+		case "SPLogout":
+			s := sps[ed.Act.S]
+			r := httptest.NewRequest("GET", "/app/logout", nil)
+			r.Host = host(s)
+			r.AddCookie(st.sessCk[s.name])
+			w := httptest.NewRecorder()
+			if err := s.mw.Session.DeleteSession(w, r); err != nil {
+				real = "error: " + err.Error()
+				break
+			}
+			for _, c := range w.Result().Cookies() {
+				if c.Name == "token" && (c.Value == "" || c.MaxAge < 0) {
+					real = "loggedout"
+					delete(st.sessCk, s.name)
+				}
+			}
+		case "Launch":
+			w := doHTTP(idp, httpReq{Method: "GET", URL: idpSrvRoot + "/login/to" + ed.Act.S, Cookie: st.idpCk})
+			body := w.Body.String()
+			switch {
+			case w.Code != 200:
+				real = fmt.Sprint(w.Code)
+			case strings.Contains(body, `name="SAMLResponse"`):
+				real = "response"
+				f, action := htmlFormFields(body)
+				st.resps[fmt.Sprintf("%s@%d", ssoResp{For: ed.Act.S, Sol: "no"}.id(), st.offset)] = &ssoMsg{Form: f, Action: action, At: st.offset}
+				if !strings.HasPrefix(action, sps[ed.Act.S].root+"/") {
+					clause = "the IdP-initiated response form targets " + action + ", not the SP of the shortcut"
+				}
+			case strings.Contains(body, `name="password"`):
+				real = "loginform"
+			default:
+				real = "other"
+			}
+			if real == "response" && !(ed.From.IdpSess && contains(ed.From.Reg, ed.Act.S)) {
+				clause = "the IdP issued an unsolicited response although the browser has no valid IdP session or the SP is not registered"
+			}
+		case "Start":
+			s := sps[ed.Act.S]
+			uri := "/app/" + strings.ToLower(s.name) + "?x=1"
+			var jar []*http.Cookie
+			if c := st.sessCk[s.name]; c != nil {
+				jar = append(jar, c) // a session cookie that outlived its session: it must not open the page
+			}
+			w := serveOn(s.protected, "GET", host(s), uri, nil, jar)
+			m := &ssoMsg{}
+			switch {
+			case w.Code == 302:
+				m.URL = w.Header().Get("Location")
+				real = "redirect"
+			case w.Code == 200 && strings.Contains(w.Body.String(), "SAMLRequest"):
+				m.Form, m.Action = htmlFormFields(w.Body.String())
+				real = "redirect"
+			default:
+				real = fmt.Sprint(w.Code)
+			}
+			for _, c := range w.Result().Cookies() {
+				if strings.HasPrefix(c.Name, "saml_") {
+					st.trk[s.name] = append(st.trk[s.name], &http.Cookie{Name: c.Name, Value: c.Value})
+				}
+			}
+			st.reqs[s.name] = m
+			st.flowURI[s.name] = uri
+			// responses still in flight for this SP answer a flow the browser has replaced
+			for k, msg := range st.resps {
+				if strings.HasPrefix(k, ssoResp{For: s.name, Sol: "cur"}.id()+"@") {
+					delete(st.resps, k)
+					st.resps[strings.Replace(k, "sol=cur", "sol=old", 1)] = msg
+				}
+			}
+		case "Serve":
+			m := st.reqs[ed.Act.S]
+			var w *httptest.ResponseRecorder
+			if m.URL != "" {
+				w = doHTTP(idp, httpReq{Method: "GET", URL: m.URL, Cookie: st.idpCk})
+			} else {
+				w = doHTTP(idp, httpReq{Method: "POST", URL: m.Action, Body: m.Form.Encode(), CType: "application/x-www-form-urlencoded", Cookie: st.idpCk})
+			}
+			body := w.Body.String()
+			switch {
+			case w.Code != 200:
+				real = fmt.Sprint(w.Code)
+			case strings.Contains(body, `name="SAMLResponse"`):
+				real = "response"
+				f, action := htmlFormFields(body)
+				st.resps[fmt.Sprintf("%s@%d", ssoResp{For: ed.Act.S, Sol: "cur"}.id(), st.offset)] = &ssoMsg{Form: f, Action: action, At: st.offset}
+				// the response form must target an ACS of the SP the request came from
+				if !strings.HasPrefix(action, sps[ed.Act.S].root+"/") {
+					clause = "the IdP's response form targets " + action + ", not the requesting SP"
+				}
+			case strings.Contains(body, `name="password"`):
+				real = "loginform"
+			default:
+				real = "other"
+			}
+			// property: a response only for an authenticated browser and a registered SP
+			if real == "response" && !(ed.From.IdpSess && contains(ed.From.Reg, ed.Act.S)) {
+				clause = "the IdP issued a response although the browser has no IdP session or the SP is not registered"
+			}
+			if real == "response" && ed.From.Reqs[ed.Act.S] == "stale" {
+				clause = "the IdP answered an authentication request that is older than every freshness window"
+			}
+		case "Deliver":
+			to := sps[ed.Act.To]
+			// the message of that kind issued in the current clock epoch (fresh) or the latest older one (stale)
+			var m *ssoMsg
+			for k, cand := range st.resps {
+				if !strings.HasPrefix(k, ed.Act.R.id()+"@") {
+					continue
+				}
+				if ed.Act.R.Fresh && cand.At == st.offset {
+					m = cand
+				}
+				if !ed.Act.R.Fresh && cand.At < st.offset && (m == nil || cand.At > m.At) {
+					m = cand
+				}
+			}
+			if m == nil {
+				rep.Break("harness: no concrete message for %v in state %s", ed.Act.R, fk)
+				return key_, real, clause, true
+			}
+			w := serveOn(to.mw, "POST", host(to), "/saml/acs", m.Form, st.trk[to.name])
+			real = fmt.Sprint(w.Code)
+			for _, c := range w.Result().Cookies() {
+				if c.Name == "token" && c.Value != "" {
+					real = "session"
+					st.sessCk[to.name] = &http.Cookie{Name: c.Name, Value: c.Value}
+					// the session must actually work and carry the IdP's user
+					w2 := serveOn(to.protected, "GET", host(to), "/app/"+strings.ToLower(to.name)+"?x=1", nil, []*http.Cookie{st.sessCk[to.name]})
+					if w2.Code != 200 || !strings.Contains(w2.Body.String(), "hello alice") {
+						clause = fmt.Sprintf("the established session does not expose the authenticated user (status %d, body %q)", w2.Code, head(w2.Body.String(), 60))
+					}
+					loc := w.Header().Get("Location")
+					ownFlow := ed.Act.R.Sol == "cur" && ed.Act.R.For == to.name && ed.From.Flow[to.name] == "pending"
+					if ownFlow && loc != st.flowURI[to.name] {
+						clause = "after completion the browser is sent to " + loc + ", not to the page it asked for (" + st.flowURI[to.name] + ")"
+					}
+					if !ownFlow {
+						// an SP that opted into IdP-initiated login uses a RelayState it cannot resolve as the target
+						switch {
+						case loc == "/":
+							real = "session-default"
+						case m.Form.Get("RelayState") != "" && strings.HasSuffix(loc, "/"+m.Form.Get("RelayState")):
+							real = "session-relay"
+						default:
+							real = "session-elsewhere:" + loc
+						}
+					}
+				}
+				if strings.HasPrefix(c.Name, "saml_") && c.Value == "" {
+					var keep []*http.Cookie
+					for _, t := range st.trk[to.name] {
+						if t.Name != c.Name {
+							keep = append(keep, t)
+						}
+					}
+					st.trk[to.name] = keep
+				}
+			}
+			r := ed.Act.R
+			got := strings.HasPrefix(real, "session")
+			own := r.Sol == "cur" && r.Fresh && r.For == ed.Act.To && ed.From.Flow[ed.Act.To] == "pending"
+			optedIn := ed.Act.To == "B"
+			switch {
+			case got && !r.Fresh:
+				clause = "SP " + ed.Act.To + " established a session from a response older than every freshness window"
+			case got && r.For != ed.Act.To:
+				clause = "SP " + ed.Act.To + " established a session from a response issued for SP " + r.For
+			case got && !optedIn && !own:
+				clause = "SP " + ed.Act.To + " did not opt into IdP-initiated login and established a session from a response that answers no pending flow of this browser (response: " + r.Sol + ", flow: " + ed.From.Flow[ed.Act.To] + ")"
+			case !got && own:
+				clause = "the faithful run (registered SP, authenticated browser, own pending flow, no delay) did not establish a session: " + real
+			}
+		}
+		return key_, real, clause, false
+	}
 	type node struct {
 		view ssoView
 		out  []*ssoEdge
@@ -284,221 +506,9 @@ func TestSSOSystem(t *testing.T) {
 				rep.Break("restore: %v", err)
 				return
 			}
-			rid := ""
-			if ed.Act.N == "Deliver" {
-				rid = fmt.Sprintf("%s,fresh=%v>", ed.Act.R.id(), ed.Act.R.Fresh)
-			}
-			key_ := fmt.Sprintf("SSO:%s:%s%s%s:from=%s", ed.Act.N, ed.Act.S, rid, ed.Act.To, hashKey(fk))
-			real := "?"
-			var clause string
-			switch ed.Act.N {
-			case "Register":
-				w := doHTTP(idp, httpReq{Method: "PUT", URL: idpSrvRoot + "/services/" + ed.Act.S, Body: string(sps[ed.Act.S].mdXML)})
-				real = fmt.Sprint(w.Code)
-				if w.Code != 204 {
-					clause = "the SP's own published metadata is not sufficient registration for the IdP (PUT /services answered " + real + ")"
-				}
-			case "Unregister":
-				w := doHTTP(idp, httpReq{Method: "DELETE", URL: idpSrvRoot + "/services/" + ed.Act.S})
-				real = fmt.Sprint(w.Code)
-			case "IdPLogin":
-				w := doHTTP(idp, httpReq{Method: "POST", URL: idpSrvRoot + "/login", Body: "user=alice&password=pw-alice", CType: "application/x-www-form-urlencoded"})
-				for _, c := range w.Result().Cookies() {
-					if c.Name == "session" {
-						st.idpCk = "session=" + c.Value
-						real = "session"
-					}
-				}
-			case "IdPLogout":
-				id := strings.TrimPrefix(st.idpCk, "session=")
-				w := doHTTP(idp, httpReq{Method: "DELETE", URL: idpSrvRoot + "/sessions/" + url.PathEscape(id)})
-				real = fmt.Sprint(w.Code) // the browser keeps the cookie: the server must have forgotten the session
-			case "TickShort":
-				st.offset += 6 * time.Minute
-				real = "none"
-			case "TickLong":
-				st.offset += 61 * time.Minute
-				real = "none"
-			case "Visit":
-				s := sps[ed.Act.S]
-				w := serveOn(s.protected, "GET", host(s), "/app/"+strings.ToLower(s.name)+"?x=1", nil, []*http.Cookie{st.sessCk[s.name]})
-				real = fmt.Sprint(w.Code)
-				if w.Code == 200 && strings.Contains(w.Body.String(), "hello alice") {
-					real = "page"
-				}
-			case "SPLogout":
-				s := sps[ed.Act.S]
-				r := httptest.NewRequest("GET", "/app/logout", nil)
-				r.Host = host(s)
-				r.AddCookie(st.sessCk[s.name])
-				w := httptest.NewRecorder()
-				if err := s.mw.Session.DeleteSession(w, r); err != nil {
-					real = "error: " + err.Error()
-					break
-				}
-				for _, c := range w.Result().Cookies() {
-					if c.Name == "token" && (c.Value == "" || c.MaxAge < 0) {
-						real = "loggedout"
-						delete(st.sessCk, s.name)
-					}
-				}
-			case "Launch":
-				w := doHTTP(idp, httpReq{Method: "GET", URL: idpSrvRoot + "/login/to" + ed.Act.S, Cookie: st.idpCk})
-				body := w.Body.String()
-				switch {
-				case w.Code != 200:
-					real = fmt.Sprint(w.Code)
-				case strings.Contains(body, `name="SAMLResponse"`):
-					real = "response"
-					f, action := htmlFormFields(body)
-					st.resps[fmt.Sprintf("%s@%d", ssoResp{For: ed.Act.S, Sol: "no"}.id(), st.offset)] = &ssoMsg{Form: f, Action: action, At: st.offset}
-					if !strings.HasPrefix(action, sps[ed.Act.S].root+"/") {
-						clause = "the IdP-initiated response form targets " + action + ", not the SP of the shortcut"
-					}
-				case strings.Contains(body, `name="password"`):
-					real = "loginform"
-				default:
-					real = "other"
-				}
-				if real == "response" && !(ed.From.IdpSess && contains(ed.From.Reg, ed.Act.S)) {
-					clause = "the IdP issued an unsolicited response although the browser has no valid IdP session or the SP is not registered"
-				}
-			case "Start":
-				s := sps[ed.Act.S]
-				uri := "/app/" + strings.ToLower(s.name) + "?x=1"
-				var jar []*http.Cookie
-				if c := st.sessCk[s.name]; c != nil {
-					jar = append(jar, c) // a session cookie that outlived its session: it must not open the page
-				}
-				w := serveOn(s.protected, "GET", host(s), uri, nil, jar)
-				m := &ssoMsg{}
-				switch {
-				case w.Code == 302:
-					m.URL = w.Header().Get("Location")
-					real = "redirect"
-				case w.Code == 200 && strings.Contains(w.Body.String(), "SAMLRequest"):
-					m.Form, m.Action = htmlFormFields(w.Body.String())
-					real = "redirect"
-				default:
-					real = fmt.Sprint(w.Code)
-				}
-				for _, c := range w.Result().Cookies() {
-					if strings.HasPrefix(c.Name, "saml_") {
-						st.trk[s.name] = append(st.trk[s.name], &http.Cookie{Name: c.Name, Value: c.Value})
-					}
-				}
-				st.reqs[s.name] = m
-				st.flowURI[s.name] = uri
-				// responses still in flight for this SP answer a flow the browser has replaced
-				for k, msg := range st.resps {
-					if strings.HasPrefix(k, ssoResp{For: s.name, Sol: "cur"}.id()+"@") {
-						delete(st.resps, k)
-						st.resps[strings.Replace(k, "sol=cur", "sol=old", 1)] = msg
-					}
-				}
-			case "Serve":
-				m := st.reqs[ed.Act.S]
-				var w *httptest.ResponseRecorder
-				if m.URL != "" {
-					w = doHTTP(idp, httpReq{Method: "GET", URL: m.URL, Cookie: st.idpCk})
-				} else {
-					w = doHTTP(idp, httpReq{Method: "POST", URL: m.Action, Body: m.Form.Encode(), CType: "application/x-www-form-urlencoded", Cookie: st.idpCk})
-				}
-				body := w.Body.String()
-				switch {
-				case w.Code != 200:
-					real = fmt.Sprint(w.Code)
-				case strings.Contains(body, `name="SAMLResponse"`):
-					real = "response"
-					f, action := htmlFormFields(body)
-					st.resps[fmt.Sprintf("%s@%d", ssoResp{For: ed.Act.S, Sol: "cur"}.id(), st.offset)] = &ssoMsg{Form: f, Action: action, At: st.offset}
-					// the response form must target an ACS of the SP the request came from
-					if !strings.HasPrefix(action, sps[ed.Act.S].root+"/") {
-						clause = "the IdP's response form targets " + action + ", not the requesting SP"
-					}
-				case strings.Contains(body, `name="password"`):
-					real = "loginform"
-				default:
-					real = "other"
-				}
-				// property: a response only for an authenticated browser and a registered SP
-				if real == "response" && !(ed.From.IdpSess && contains(ed.From.Reg, ed.Act.S)) {
-					clause = "the IdP issued a response although the browser has no IdP session or the SP is not registered"
-				}
-				if real == "response" && ed.From.Reqs[ed.Act.S] == "stale" {
-					clause = "the IdP answered an authentication request that is older than every freshness window"
-				}
-			case "Deliver":
-				to := sps[ed.Act.To]
-				// the message of that kind issued in the current clock epoch (fresh) or the latest older one (stale)
-				var m *ssoMsg
-				for k, cand := range st.resps {
-					if !strings.HasPrefix(k, ed.Act.R.id()+"@") {
-						continue
-					}
-					if ed.Act.R.Fresh && cand.At == st.offset {
-						m = cand
-					}
-					if !ed.Act.R.Fresh && cand.At < st.offset && (m == nil || cand.At > m.At) {
-						m = cand
-					}
-				}
-				if m == nil {
-					rep.Break("harness: no concrete message for %v in state %s", ed.Act.R, fk)
-					return
-				}
-				w := serveOn(to.mw, "POST", host(to), "/saml/acs", m.Form, st.trk[to.name])
-				real = fmt.Sprint(w.Code)
-				for _, c := range w.Result().Cookies() {
-					if c.Name == "token" && c.Value != "" {
-						real = "session"
-						st.sessCk[to.name] = &http.Cookie{Name: c.Name, Value: c.Value}
-						// the session must actually work and carry the IdP's user
-						w2 := serveOn(to.protected, "GET", host(to), "/app/"+strings.ToLower(to.name)+"?x=1", nil, []*http.Cookie{st.sessCk[to.name]})
-						if w2.Code != 200 || !strings.Contains(w2.Body.String(), "hello alice") {
-							clause = fmt.Sprintf("the established session does not expose the authenticated user (status %d, body %q)", w2.Code, head(w2.Body.String(), 60))
-						}
-						loc := w.Header().Get("Location")
-						ownFlow := ed.Act.R.Sol == "cur" && ed.Act.R.For == to.name && ed.From.Flow[to.name] == "pending"
-						if ownFlow && loc != st.flowURI[to.name] {
-							clause = "after completion the browser is sent to " + loc + ", not to the page it asked for (" + st.flowURI[to.name] + ")"
-						}
-						if !ownFlow {
-							// an SP that opted into IdP-initiated login uses a RelayState it cannot resolve as the target
-							switch {
-							case loc == "/":
-								real = "session-default"
-							case m.Form.Get("RelayState") != "" && strings.HasSuffix(loc, "/"+m.Form.Get("RelayState")):
-								real = "session-relay"
-							default:
-								real = "session-elsewhere:" + loc
-							}
-						}
-					}
-					if strings.HasPrefix(c.Name, "saml_") && c.Value == "" {
-						var keep []*http.Cookie
-						for _, t := range st.trk[to.name] {
-							if t.Name != c.Name {
-								keep = append(keep, t)
-							}
-						}
-						st.trk[to.name] = keep
-					}
-				}
-				r := ed.Act.R
-				got := strings.HasPrefix(real, "session")
-				own := r.Sol == "cur" && r.Fresh && r.For == ed.Act.To && ed.From.Flow[ed.Act.To] == "pending"
-				optedIn := ed.Act.To == "B"
-				switch {
-				case got && !r.Fresh:
-					clause = "SP " + ed.Act.To + " established a session from a response older than every freshness window"
-				case got && r.For != ed.Act.To:
-					clause = "SP " + ed.Act.To + " established a session from a response issued for SP " + r.For
-				case got && !optedIn && !own:
-					clause = "SP " + ed.Act.To + " did not opt into IdP-initiated login and established a session from a response that answers no pending flow of this browser (response: " + r.Sol + ", flow: " + ed.From.Flow[ed.Act.To] + ")"
-				case !got && own:
-					clause = "the faithful run (registered SP, authenticated browser, own pending flow, no delay) did not establish a session: " + real
-				}
+			key_, real, clause, fatal := exec(st, idp, ed, fk)
+			if fatal {
+				return
 			}
 			mu.Lock()
 			executed++
@@ -527,6 +537,68 @@ func TestSSOSystem(t *testing.T) {
 		})
 		frontier = next
 	}
+	// long random behaviours (spec/SSOSystemSim.tla, TLC simulation mode): nothing is restored between
+	// steps - one IdP server, one store, both cookie jars, the messages in flight and the clock live
+	// through the whole history
+	longSteps, longBeh := 0, 0
+	if _, err := os.Stat(filepath.Join(workDir(), "sso_beh.ndjson")); err == nil {
+		behs := loadLines(t, "sso_beh.ndjson")
+		if len(behs) > 150 {
+			behs = behs[:150]
+		}
+		initView := nodes[initKey].view
+		parallel(len(behs), func(i int) {
+			var b struct {
+				Steps []struct {
+					Act   ssoAct  `json:"act"`
+					Reply string  `json:"reply"`
+					To    ssoView `json:"to"`
+				} `json:"steps"`
+			}
+			if err := json.Unmarshal(behs[i], &b); err != nil {
+				rep.Break("bad behaviour: %v", err)
+				return
+			}
+			st := snaps[initKey].copy()
+			store := newMapStore(st.store)
+			idp, err := newIdpSrv(store)
+			if err != nil {
+				rep.Break("long: %v", err)
+				return
+			}
+			prev := initView
+			bid := hashKey(string(behs[i]))[:10]
+			for n, sp := range b.Steps {
+				setGoroutineClock(base.Add(st.offset))
+				ed := &ssoEdge{From: prev, Act: sp.Act, Reply: sp.Reply, To: sp.To}
+				_, real, clause, fatal := exec(st, idp, ed, "long")
+				clearGoroutineClock()
+				if fatal {
+					return
+				}
+				mu.Lock()
+				longSteps++
+				mu.Unlock()
+				key_ := fmt.Sprintf("SSO:long:%s:step=%d:%s", bid, n+1, sp.Act.N)
+				rep.Eval("LongStep", key_)
+				if clause != "" {
+					rep.Violation(key_, fmt.Sprintf("step %d of a %d-step history without restore: %s", n+1, len(b.Steps), clause), map[string]any{"behaviour": b.Steps[:n+1], "real": real})
+					return
+				}
+				if real != sp.Reply {
+					rep.DriftCase(key_, "reply differs from the model: "+real+" vs "+sp.Reply, map[string]any{"behaviour": b.Steps[:n+1]})
+					return
+				}
+				prev = sp.To
+			}
+			rep.Trace(len(b.Steps))
+			mu.Lock()
+			longBeh++
+			mu.Unlock()
+		})
+	}
+	rep.Extra["sso_long_behaviours_completed"] = longBeh
+	rep.Extra["sso_long_steps_executed"] = longSteps
 	unreached := 0
 	for k := range nodes {
 		if !done[k] {
